@@ -330,17 +330,26 @@ def run(db, rep, feat, tier):
     r = rep.rule("R11", "K9", "MIPS window end: in a full 64-byte window a branch is lifted only when at least 8 bytes (branch and delay "
                  "slot) remain; the look-ahead guard is evaluated for every word offset of the window")
     hbm, mm = lifters.insn_matches(db, "mips")
-    rep.anchor(len(mm) == 3, "mips look-ahead match")
-    pre = mm[1]
-    guards = []
     from db import walk, strip
     mhb = db.hir[lifters.TB["mips"]]
-    for a in pre.arms:
-        if a["wild"]:
-            continue
-        for x in walk(a["arm"].body):
-            if x.get("k") == "If":
-                guards.append(x)
+
+    def conjuncts(c):
+        c = strip(c)
+        if c.get("k") == "Binary" and c.get("op") == "And":
+            return conjuncts(c["a"]) + conjuncts(c["b"])
+        return [c]
+
+    def room_test(x):
+        return x.get("k") == "If" and any(y.get("k") == "MethodCall" and y["name"] == "len" for y in walk(x["c"])) and \
+            any(y.get("k") == "Path" and y.get("res", {}).get("local") == "offset" for y in walk(x["c"]))
+
+    # form 1: the room test sits in the arms of a match over the mnemonic (the look-ahead match lists the delay-slot branches);
+    # form 2: one condition `is_delay_slot_branch(id) && <room test>` in translate_block - a conjunct that is not arithmetic over
+    # (offset, len) distinguishes it from the plain `offset >= len` loop test
+    guards = [x for m_ in mm[1:2] for a in m_.arms if not a["wild"] for x in walk(a["arm"].body) if x.get("k") == "If"]
+    if not guards:
+        guards = [x for x in walk(mhb["body"]) if room_test(x) and any(y.get("k") == "Break" for y in walk(x["then"])) and
+                  len(conjuncts(x["c"])) >= 2 and any(evalg(cj, {"offset": 0, "len": 64, "db": db}, {}) is None for cj in conjuncts(x["c"]))]
     rep.anchor(len(guards) >= 1, "the look-ahead guard")
     g = guards[0]
     lets = {}
@@ -353,10 +362,14 @@ def run(db, rep, feat, tier):
     undecided = False
     for L in (64,):          # a full window; shorter windows mean the mapped memory ends and nothing follows
         for o in range(0, L + 1, 4):
-            v = evalg(g["c"], {"offset": o, "len": L, "db": db}, lets)
-            if v is None:
+            # conjuncts that are not arithmetic over (offset, len) - the test "this is a branch with a delay slot" - hold in the case
+            # the rule is about
+            vs = [evalg(cj, {"offset": o, "len": L, "db": db}, lets) for cj in conjuncts(g["c"])]
+            arith = [x for x in vs if x is not None]
+            if not arith:
                 undecided = True
                 break
+            v = all(arith)
             if v is False and L - o < 8 and (worst is None or L - o < worst[1] - worst[0]):
                 worst = (o, L)
         if undecided:
